@@ -55,7 +55,10 @@ Definition gset_vsign st g := {| g_e := g_e st; g_pos0 := g_pos0 st; g_rout := g
 Definition gset_dep st d := {| g_e := g_e st; g_pos0 := g_pos0 st; g_rout := g_rout st; g_written := g_written st; g_sig := g_sig st; g_vsign := g_vsign st; g_dep := d; g_fds := g_fds st |}.
 Definition gset_fds st f := {| g_e := g_e st; g_pos0 := g_pos0 st; g_rout := g_rout st; g_written := g_written st; g_sig := g_sig st; g_vsign := g_vsign st; g_dep := g_dep st; g_fds := f |}.
 
-Definition gout (st : gstate) : bytes := rev (g_rout st).
+(* linear-time list reversal (List.rev is quadratic) *)
+Definition frev {A} (l : list A) : list A := rev_append l [].
+
+Definition gout (st : gstate) : bytes := frev (g_rout st).
 Definition gabs (st : gstate) : N := g_pos0 st + g_written st.
 (* Write for SerializerCommon: write the bytes and add to bytes_written *)
 Definition gwr (st : gstate) (b : bytes) : gstate :=
@@ -118,7 +121,7 @@ Definition gseq_end st (start : N) (roffs : option (list N)) (array_sig : sig) :
   | Some ro =>
       let array_len := g_written st - start in
       if array_len =? 0 then Ok st            (* "Empty sequence" *)
-      else write_all st (rev ro) array_len
+      else write_all st (frev ro) array_len
   end.
 
 (* after SeqSerializer::serialize_element / MapSerializer::serialize_value: offsets.push(bytes_written - start) *)
